@@ -130,3 +130,10 @@ harmless("C06", "ok-c06-correct-cache-keyed-by-types-package", IX,
     "\t\t\tfor _, imp := range pass.Pkg.Imports() {\n\t\t\t\tfact := zero.CreateEmpty()\n\t\t\t\tif imp.Path() != \"\" && pass.ImportPackageFact(imp, fact) {")
 harmless("C06", "ok-c06-annotation-struct-fields-reordered", AN, "\tOnType    string // \"MyStruct\"\n\tOnTypePos token.Pos\n\n\tConstructorNames []string // [\"New\", \"Create\"]\n}", "\tConstructorNames []string // [\"New\", \"Create\"]\n\n\tOnTypePos token.Pos\n\tOnType    string // \"MyStruct\"\n}")
 harmless("C06", "ok-c06-extra-exported-field-in-fact", AN, "\tPackageOnlyAnnotations []PackageOnlyAnnotation\n}", "\tPackageOnlyAnnotations []PackageOnlyAnnotation\n\tSchemaVersion          int\n}")
+harmless("C06", "ok-c06-tonl01-dedup-key-includes-package-path", TC, "\t\t\t\t\t\tif !reportedTypes[v.TestOnlyObj] {\n\t\t\t\t\t\t\tviolations = append(violations, *v)\n\t\t\t\t\t\t\treportedTypes[v.TestOnlyObj] = true\n\t\t\t\t\t\t}", "\t\t\t\t\t\tif k := fmt.Sprint(v.Pos) + v.TestOnlyObj; k != \"\" && !reportedTypes[pkgOf(&context, node)+\".\"+v.TestOnlyObj] {\n\t\t\t\t\t\t\tviolations = append(violations, *v)\n\t\t\t\t\t\t\treportedTypes[pkgOf(&context, node)+\".\"+v.TestOnlyObj] = true\n\t\t\t\t\t\t}", 1)
+harmless("C06", "ok-c06-tonl01-dedup-key-includes-package-path", TC, "type testOnlyContext struct {", "// pkgOf returns the package path of the type a composite literal instantiates.\nfunc pkgOf(ctx *testOnlyContext, node *ast.CompositeLit) string {\n\tif ti := util.ExtractTypeInfo(ctx.pass.TypesInfo.TypeOf(node)); ti != nil {\n\t\treturn ti.PkgPath\n\t}\n\treturn \"\"\n}\n\ntype testOnlyContext struct {")
+harmless("C06", "ok-c06-constructor-exemption-only-in-own-package", "src/immutable/checker.go", "\tif ctx.constructors.Match(pkgPath, *ctx.currentFunction, typeName) {\n\t\treturn nil\n\t}\n\n\t// Check if the field is marked as @mutable\n\tif ctx.mutableFields.Match(pkgPath, selector.Sel.Name, typeName) {\n\t\treturn nil\n\t}\n\n\treturn &ImmutableViolation{\n\t\tTypeName: typeName,\n\t\tCode:     codes.ImmutableFieldAssignment,", "\tif ctx.pass.Pkg.Path() == pkgPath && ctx.constructors.Match(pkgPath, *ctx.currentFunction, typeName) {\n\t\treturn nil\n\t}\n\n\t// Check if the field is marked as @mutable\n\tif ctx.mutableFields.Match(pkgPath, selector.Sel.Name, typeName) {\n\t\treturn nil\n\t}\n\n\treturn &ImmutableViolation{\n\t\tTypeName: typeName,\n\t\tCode:     codes.ImmutableFieldAssignment,")
+harmless("C11", "ok-c11-mutex-protected-index-memo-per-types-package", IX,
+    "func BuildImmutableTypesIndex[T annotations.AnnotationWrapper](pass *analysis.Pass, packageAnnotations *annotations.PackageAnnotations) util.TypesMap {\n\tresult := util.NewTypesMap()\n",
+    "var (\n\timmMemoMu sync.Mutex\n\timmMemo   = map[*types.Package]util.TypesMap{}\n)\n\nfunc BuildImmutableTypesIndex[T annotations.AnnotationWrapper](pass *analysis.Pass, packageAnnotations *annotations.PackageAnnotations) util.TypesMap {\n\timmMemoMu.Lock()\n\tcached, ok := immMemo[pass.Pkg]\n\timmMemoMu.Unlock()\n\tif ok {\n\t\treturn cached\n\t}\n\tresult := util.NewTypesMap()\n\tdefer func() {\n\t\timmMemoMu.Lock()\n\t\timmMemo[pass.Pkg] = result\n\t\timmMemoMu.Unlock()\n\t}()\n")
+harmless("C11", "ok-c11-mutex-protected-index-memo-per-types-package", IX, "import (\n\t\"go/types\"\n\t\"iter\"\n", "import (\n\t\"go/types\"\n\t\"iter\"\n\t\"sync\"\n")
